@@ -454,20 +454,28 @@ def run_property(pid, tier, replay_path=None):
                 raise
             except Exception as e:
                 ctx.secondary_tie = {'ok': False, 'detail': f'secondary tie raised {type(e).__name__}: {e}'}
-            if not ctx.secondary_tie.get('ok'):
-                ctx.escalated = True
+            tie_broken = not ctx.secondary_tie.get('ok')
+            if tie_broken:
                 ctx.note('secondary tie (translated source = model) does not check: ' + str(ctx.secondary_tie.get('detail'))[:600]
                          + ' — correspondence escalated')
-        # 4. correspondence (needs the driver, i.e. the model files, to build)
+        else:
+            tie_broken = False
+        # 4. correspondence (needs the driver, i.e. the model files, to build).  With a broken secondary tie it runs twice: at the
+        #    ordinary depth first (a disagreement found there is reported at once), then, if that was clean, at thorough depth.
         corr_err = None
-        try:
-            mod.correspondence(ctx)
-        except Timeout:
-            raise
-        except Exception as e:
-            corr_err = f'{type(e).__name__}: {e}'
-            ctx.note('correspondence aborted: ' + corr_err + '\n' + traceback.format_exc()[-1500:])
-            reasons.append({'kind': 'correspondence', 'detail': 'correspondence run aborted: ' + corr_err})
+        for phase in ((False, True) if (tie_broken and tier == 'quick') else (tie_broken,)):
+            ctx.escalated = phase
+            try:
+                mod.correspondence(ctx)
+            except Timeout:
+                raise
+            except Exception as e:
+                corr_err = f'{type(e).__name__}: {e}'
+                ctx.note('correspondence aborted: ' + corr_err + '\n' + traceback.format_exc()[-1500:])
+                reasons.append({'kind': 'correspondence', 'detail': 'correspondence run aborted: ' + corr_err})
+            if ctx.mismatches or corr_err:
+                break
+        ctx.escalated = tie_broken
         if ctx.mismatches:
             reasons.append({'kind': 'correspondence', 'detail': f'{len(ctx.mismatches)} disagreement(s) between implementation and model',
                             'first': jsonable(ctx.mismatches[0])})
